@@ -161,6 +161,19 @@ func c07main(c *Ctx) {
 		}
 		_ = lateAdds
 		lg := chain[depth-1]
+		// one Attrs value (NewAttrs: spare capacity) handed to this logger AND to a sibling that is extended afterwards:
+		// the logger's own attributes are its own copy
+		if r.P(20) && len(own[depth-1]) == 0 {
+			shared := slog.NewAttrs("sha", "own#sha", "shb", "own#shb")
+			lg.SetAttrs1(shared)
+			own[depth-1] = append(own[depth-1], srcKV{key: "sha", src: "own#sha"}, srcKV{key: "shb", src: "own#shb"})
+			sib := newRoot("sibling", f, w, slog.AlwaysLevel)
+			sib.SetAttrs1(shared)
+			lg.Set("shc", "own#shc")
+			own[depth-1] = append(own[depth-1], srcKV{key: "shc", src: "own#shc"})
+			sib.Set("shc", "SIBLING", "shd", "SIBLING")
+			c.R.Add("cases_with_shared_attrs_value", 1)
+		}
 		// context keys
 		var ctxList []srcKV
 		var keyDesc []string
